@@ -1,4 +1,5 @@
 import Fdo.Proto.ServerIsolation
+import Fdo.Svc.PipelineProofs
 /-
 C19 — concurrent onboardings through one server are isolated (the logical part).
 
@@ -118,5 +119,71 @@ example :
       { tok := .sess 1, typ := 70, enc := some (1, 9), nonceOf := some 1 }]
     let r : Req := { tok := .sess 0, typ := 64, dev := 1, nonceOf := some 0, signer := some 1, xb := 7 }
     (step (stateAfter st others) r).2 = (65, []) ∧ (step st r).2 = (65, []) := by decide
+
+/-! ### the device-side pipeline (process model, `Fdo.Svc.Pipeline`)
+
+Two parties — the module goroutine writing through the `UnchunkWriter`, the transport loop reading
+through the `ChunkReader` — joined by a channel of `cap` pipe readers (1000 in to2.go) and unbounded
+buffered pipes. A schedule is any interleaving of their enabled steps; the reader may take any
+non-empty part of the available bytes at each read. What is proved is about this model; that the Go
+pipeline has exactly these blocking points is read off the source (chunk.go: the only blocking
+operations are the channel send in `nextPipe`, the channel receive and the pipe read in `ReadChunk`)
+and exercised by the delay permutations and watchdog of the harness. -/
+
+open _root_.Fdo.Svc.Pipeline in
+/-- **The pipeline never deadlocks**: in every state reachable under any schedule, for any script of
+module calls, any channel capacity ≥ 1 and any data volume, either both parties have finished or one
+of them can take a step. -/
+theorem pipeline_never_deadlocks (cap : Nat) (script : List Act) (hc : 1 ≤ cap) (s : St)
+    (h : Reach cap script s) (hf : ¬ s.final) : ∃ t, Step s t :=
+  progress s (inv_reach cap script hc s h) hf
+
+open _root_.Fdo.Svc.Pipeline in
+/-- **Every schedule terminates** (no livelock): the number of steps any schedule can take from the
+initial state is bounded by a measure of the script alone — so, with `pipeline_never_deadlocks`,
+every schedule reaches the state where both parties have finished. -/
+theorem pipeline_terminates (cap : Nat) (script : List Act) (n : Nat) (s : St)
+    (h : Run n (St.init cap script) s) : n + measure s ≤ measure (St.init cap script) := by
+  generalize hs₀ : St.init cap script = s₀ at h
+  induction h with
+  | zero => simp
+  | succ n s₀ t u _ hst ih => have := measure_decreases t u hst; have := ih hs₀; omega
+
+open _root_.Fdo.Svc.Pipeline in
+/-- **What the transport loop reads is what the modules wrote, whatever the relative speed of the two
+goroutines**: in every final state reached by any schedule the bytes read equal the bytes of the
+script's writes, in order (writes refused because they follow a forced break without a new message
+excluded). -/
+theorem pipeline_schedule_independent (cap : Nat) (script : List Act) (hc : 1 ≤ cap) (s : St)
+    (h : Reach cap script s) (hf : s.final) : evBytes s.out = scriptBytes false script := by
+  have hi := inv_reach cap script hc s h
+  have hs := stream_reach cap script hc s h
+  obtain ⟨hm, ht⟩ := hf
+  have hp := (hi.tdone ht).2.1
+  have hsc := (hi.done_closed hm).1
+  unfold StreamInv at hs
+  rw [hp, hsc] at hs
+  simpa [pipeBytes, scriptBytes] using hs
+
+open _root_.Fdo.Svc.Pipeline in
+/-- the channel never holds more than its capacity: the module goroutine waits instead (and, being the
+only waiter on a full channel, is released by the reader's next receive) -/
+theorem pipeline_queue_bounded (cap : Nat) (script : List Act) (hc : 1 ≤ cap) (s : St)
+    (h : Reach cap script s) : s.queued ≤ cap := by
+  have := (inv_reach cap script hc s h).queued_le
+  have hcap : s.cap = cap := by
+    clear this
+    induction h with
+    | init => rfl
+    | step s t _ hst ih => cases hst <;> simpa using ih
+  omega
+
+open _root_.Fdo.Svc.Pipeline in
+/-- Non-vacuity: with a one-slot channel, a script of two messages and a forced break has a schedule in
+which the module goroutine is made to wait, and the state is not stuck. -/
+example :
+    let s₀ := St.init 1 [.next, .write [1, 2], .yield, .next, .write [3]]
+    ∃ s₁ s₂, Step s₀ s₁ ∧ Step s₁ s₂ ∧ s₂.queued = 1 ∧ ¬ s₂.final := by
+  refine ⟨_, _, Step.mNext _ _ rfl (by decide), Step.mWrite _ [1, 2] _ rfl, by decide, by simp [St.final, St.init]⟩
 
 end Fdo.Props.C19
